@@ -28,7 +28,7 @@ fn ok(tg: &str) -> String {
 
 pub const PROGRAMS: &[&str] = &[
     "q-denied", "q-multi-first", "q-multi-last", "ext-denied", "ext-denied-then-allowed-in-batch", "ext-allowed-then-denied-in-batch", "txn-q-denied",
-    "txn-ext-denied-then-batch", "named-denied-then-bind", "intercept", "denied-parse-only", "ext-intercept", "txn-ext-intercept", "ext-allowed-then-intercept", "reload-then-q-denied", "reload-then-ext-denied", "pause-reload-then-q-denied",
+    "txn-ext-denied-then-batch", "named-denied-then-bind", "intercept", "denied-parse-only", "ext-intercept", "txn-ext-intercept", "ext-allowed-then-intercept", "reload-then-q-denied", "reload-then-ext-denied", "pause-reload-then-q-denied", "two-named-denied-then-bind", "ext-intercept-then-idle",
 ];
 
 pub fn scenario(prog: &str, enabled: bool, cache: usize) -> Scenario {
@@ -116,8 +116,26 @@ pub fn scenario(prog: &str, enabled: bool, cache: usize) -> Scenario {
             // the connection may have been closed by the pooler for the unknown statement: reconnect
             s = s.step(Step::Wait(Cond::TimeMs(0)));
         }
+        "two-named-denied-then-bind" => {
+            // two refused statements in one batch, each under a name: neither may be usable afterwards
+            let mut b = wire::parse("sx", DENIED, &[]);
+            b.extend(wire::parse("sy", DENIED2, &[]));
+            b.extend(sync.clone());
+            let mut b2 = wire::bind("", "sy", &[], &[], &[]);
+            b2.extend(wire::execute("", 0));
+            b2.extend(sync.clone());
+            s = s.send_z(b, "P(sx, denied) P(sy, denied) S").send_z(b2, "B(sy) E S");
+            s = s.step(Step::Wait(Cond::TimeMs(0)));
+        }
         "intercept" => {
             s = s.q(INTERCEPT_QUERY).q(&INTERCEPT_QUERY.to_uppercase()).q(&ok(&tg()));
+        }
+        "ext-intercept-then-idle" => {
+            // after a batch the pooler answered itself the client is idle: it holds nothing, the second client
+            // (pool_size 1) is served while this one is still connected
+            let mut b = pbe("", INTERCEPT_QUERY);
+            b.extend(sync.clone());
+            s = s.send_z(b, "P(intercepted) B E S").wait(Cond::ActorsDone(vec![1])).q(&ok(&tg()));
         }
         "ext-intercept" => {
             // the verdict is found at Parse, acted on at Sync: no server is held in between
@@ -165,8 +183,12 @@ pub fn scenario(prog: &str, enabled: bool, cache: usize) -> Scenario {
         _ => panic!("unknown program"),
     }
     s = s.terminate();
+    let idle_at = s.steps.iter().position(|x| matches!(x, Step::Wait(Cond::ActorsDone(v)) if v == &vec![1usize]));
     let probe = Script::new("probe")
-        .wait(Cond::ActorsDone(vec![0]))
+        .wait(match idle_at {
+            Some(at) => Cond::ActorAt(0, at),
+            None => Cond::ActorsDone(vec![0]),
+        })
         .connect("alice", "db", Some("alicepw"))
         .q(&format!("SELECT 'probe' /*{} allowed*/", tag(1, 0, 0)))
         .terminate();
@@ -280,7 +302,7 @@ pub fn oracle(sc: &Scenario, out: &Outcome) -> Vec<Violation> {
             }
         }
     }
-    let closed_by_pooler = log.iter().any(|e| matches!(&e.rec, Rec::CEof { c } if *c == 0)) && prog == "named-denied-then-bind";
+    let closed_by_pooler = log.iter().any(|e| matches!(&e.rec, Rec::CEof { c } if *c == 0)) && (prog == "named-denied-then-bind" || prog == "two-named-denied-then-bind");
     for st in &sent_allowed {
         // multi-statement message with a denied part: the whole message is refused
         if prog == "q-multi-first" && enabled && st.contains("c0.t1.") {
@@ -362,7 +384,7 @@ pub fn build(tier: &str) -> SimCheck {
         oracle: Box::new(oracle),
         bound: 0,
         limits: Limits::default(),
-        rule: "sim: 17 programs (denied simple query, denied part first/last of a multi-statement query, denied extended batch, denied + allowed statements in one batch in both orders, inside a transaction over both protocols, denied named statement bound later, intercept over the simple protocol, over the extended protocol outside / inside a transaction / after an allowed batch, denied Parse abandoned, a table listed by a RELOAD while the client is connected and idle then named over the simple / extended protocol, or named while the pool is paused and listed by a RELOAD during the pause) x plugins on/off x statement caching off/on; also with plugins configured at both levels (the pool's own section replaces the general one); then a second client and a pooler-state probe".into(),
+        rule: "sim: 19 programs (denied simple query, denied part first/last of a multi-statement query, denied extended batch, denied + allowed statements in one batch in both orders, inside a transaction over both protocols, denied named statement bound later, two denied named statements in one batch with the second bound later, intercept over the simple protocol, over the extended protocol outside / inside a transaction / after an allowed batch, denied Parse abandoned, a table listed by a RELOAD while the client is connected and idle then named over the simple / extended protocol, or named while the pool is paused and listed by a RELOAD during the pause) x plugins on/off x statement caching off/on; also with plugins configured at both levels (the pool's own section replaces the general one); then a second client and a pooler-state probe".into(),
         assumptions: vec!["denied text recognised on the backend by the listed table reference it contains".into()],
     }
 }
